@@ -139,6 +139,20 @@ fn main() {
                 for v in vals { let mut args = base.clone(); args.extend(flag_args(f, &v)); jobs.push((args, stdin.clone())); }
             }
         }
+        // template-valued arguments whose *rendered* text contains the syntax of the argument's own mini-language ('=',
+        // '~', '-', ',', blanks, nothing, a number above u64): validation sees the template, parsing the rendered text
+        {
+            let custom = r#"{"k":"k=v","e":"","n":"-1","t":"~1","big":"18446744073709551616","sp":" 1 ","c":"0,1","eq":"="}"#;
+            let ron = "(core:[var(Major),var(Minor),var(Patch),str(\"c\"),uint(5)],extra_core:[var(Epoch),var(PreRelease),var(Post),var(Dev),str(\"e\")],build:[str(\"b\"),uint(7)])";
+            let bases = [a(&[sub, "--source", "none", "--tag-version", "1.2.3-rc.1.post.2", "--bumped-branch", "fix/a=b", "--custom", custom]),
+                a(&[sub, "--source", "none", "--tag-version", "1.2.3-rc.1.post.2", "--bumped-branch", "=", "--custom", custom, "--schema-ron", ron])];
+            let tpool = a(&["{{ bumped_branch }}", "0={{ bumped_branch }}", "{{ custom.n }}", "{{ custom.t }}", "{{ custom.t }}={{ custom.n }}", "0={{ custom.e }}", "{{ custom.e }}", "1={{ custom.k }}", "{{ custom.big }}",
+                "{{ custom.n }}=x", "{{ custom.sp }}", "{{ custom.c }}", "{{ custom.eq }}", "3{{ custom.eq }}x", "-1={{ custom.k }}", "~1={{ bumped_branch }}", "{{ custom.k }}={{ custom.k }}"]);
+            for base in &bases { for f in &flags {
+                if !f.takes_value || f.long == "source" || f.long == "directory" || f.long == "custom" || f.long == "bumped-branch" || (f.long == "schema-ron" && base.contains(&"--schema-ron".to_string())) { continue; }
+                for v in &tpool { let mut args = base.clone(); args.extend(flag_args(f, v)); jobs.push((args, None)); }
+            }}
+        }
         // all pairs of flags x small pool, first context (and stdin context in thorough)
         for (ci, (base, stdin)) in contexts.iter().enumerate() {
             if ci == 1 || ci == 3 || ci >= 4 || (quick && ci == 2) { continue; }
@@ -363,7 +377,7 @@ fn main() {
     cov.transitions = cov.evaluations;
     cov.traces_validated = cov.evaluations;
     cov.distinct_nontrivial = all.get("zerv_error") + all.get("usage_error") + all.get("process_failed") + all.get("fault_plans");
-    cov.rule = format!("(a) flags read from Cli::command() at run time; for version and flow in 4 source contexts every single flag x a {}-value adversarial pool, every pair of flags x a {}-value pool, every word of each flag's own help text (its enumerated values among them) as that flag's value in 8 spellings (as written, lower, upper, title and alternating case, two-letter abbreviation, leading / trailing blank); malformed stdin documents; 133 custom precedence orders (every single, every ordered pair, every all-but-one, reversed) on stdin and via --schema-ron x every bump/override flag x a 5-value pool; render/check on {} nasty version strings x formats x templates; every template function x argument pool singles, pairs and (value, pair) triples: {} in-process runs under catch_unwind; (b) a strided slice of those through the real binary plain, with -v and under RUST_LOG=trace / a malformed RUST_LOG / ZERV_FORCE_RUST_LOG_OFF (stdout and status identical, exit/stream protocol), help/version/llm-help; (c) git faults: for each of 7 repository scenarios (incl. a shallow repository) x [version, flow] the shim records the N git calls of a fault-free run, then every k<=N x 17 fault modes (6 failure modes: exit 1, exit 128, garbage, empty, SIGKILL, silent exit 1; 11 hostile-content modes with status 0: negative / 20-digit / i64::MAX / 2^32 / zero numbers, blank, two hash lines, non-UTF-8 tag names, a 200 KB line, a tag list, stderr noise) (deviation 1){}, plus git missing / -C to a missing path / file / non-repository; (d) through the binary only: 21 recursive input shapes (template parentheses / if / for / + / and / function / filter / ~ / array / path / not nesting or chains, custom JSON, --schema-ron, --branch-rules, stdin documents, long SemVer / PEP 440 strings) at sizes 8, 64, 512, 4096 (thorough also 16384, 60000) and stdin byte contents (invalid UTF-8, NUL, BOM, CRLF, Latin-1): zerv must terminate without abort; (e) 49 repositories whose branch name is 40-240 bytes of 1/2/3/4-byte characters at every alignment (half of them with 40 long non-ASCII tags on the tagged commit) x version/flow x plain / -v / RUST_LOG=trace / --verbose+RUST_LOG=debug. non-trivial = runs that end in an error path plus fault plans", pool.len(), spool.len(), versions.len(), jobs.len(), if quick { "" } else { " and every pair of fault points in 2 modes (deviation 2)" });
+    cov.rule = format!("(a) flags read from Cli::command() at run time; for version and flow in 4 source contexts every single flag x a {}-value adversarial pool, every pair of flags x a {}-value pool, every word of each flag's own help text (its enumerated values among them) as that flag's value in 8 spellings (as written, lower, upper, title and alternating case, two-letter abbreviation, leading / trailing blank); 17 template-valued arguments whose rendered text contains '=', '~', '-', ',', blanks, nothing or a number above u64, for every flag in two contexts; malformed stdin documents; 133 custom precedence orders (every single, every ordered pair, every all-but-one, reversed) on stdin and via --schema-ron x every bump/override flag x a 5-value pool; render/check on {} nasty version strings x formats x templates; every template function x argument pool singles, pairs and (value, pair) triples: {} in-process runs under catch_unwind; (b) a strided slice of those through the real binary plain, with -v and under RUST_LOG=trace / a malformed RUST_LOG / ZERV_FORCE_RUST_LOG_OFF (stdout and status identical, exit/stream protocol), help/version/llm-help; (c) git faults: for each of 7 repository scenarios (incl. a shallow repository) x [version, flow] the shim records the N git calls of a fault-free run, then every k<=N x 17 fault modes (6 failure modes: exit 1, exit 128, garbage, empty, SIGKILL, silent exit 1; 11 hostile-content modes with status 0: negative / 20-digit / i64::MAX / 2^32 / zero numbers, blank, two hash lines, non-UTF-8 tag names, a 200 KB line, a tag list, stderr noise) (deviation 1){}, plus git missing / -C to a missing path / file / non-repository; (d) through the binary only: 21 recursive input shapes (template parentheses / if / for / + / and / function / filter / ~ / array / path / not nesting or chains, custom JSON, --schema-ron, --branch-rules, stdin documents, long SemVer / PEP 440 strings) at sizes 8, 64, 512, 4096 (thorough also 16384, 60000) and stdin byte contents (invalid UTF-8, NUL, BOM, CRLF, Latin-1): zerv must terminate without abort; (e) 49 repositories whose branch name is 40-240 bytes of 1/2/3/4-byte characters at every alignment (half of them with 40 long non-ASCII tags on the tagged commit) x version/flow x plain / -v / RUST_LOG=trace / --verbose+RUST_LOG=debug. non-trivial = runs that end in an error path plus fault plans", pool.len(), spool.len(), versions.len(), jobs.len(), if quick { "" } else { " and every pair of fault points in 2 modes (deviation 2)" });
     cov.exhaustive = true;
     cov.samples = vec![json!(jobs[jobs.len() / 2].0), json!(jobs[17].0), json!({"scenario":"ahead+dirty","command":"flow","fault_at":7,"mode":"garbage"})];
     cov.set("clause_counts", all.to_json());
